@@ -493,6 +493,20 @@ Proof.
   pose proof (H x) as Hx. unfold hc_at in Hx. rewrite E in Hx. exact Hx.
 Qed.
 
+(* Unconditional form (no hypothesis on x at all — accepted or not, finished or not): the n-th hand-out of x needs
+   n-1 re-queues by QPlugin.shutdown of a dropped connection; in particular a second hand-out needs a drop. *)
+Lemma handout_again_needs_requeue : forall h x,
+  let s := run h init in
+  (occ x (s_handed s) <= occ x (s_requeued s) + 1)%nat /\
+  (2 <= occ x (s_handed s) -> 1 <= occ x (s_requeued s))%nat.
+Proof.
+  intros h x s. assert (A : Nat.le (occ x (s_handed s)) (occ x (s_requeued s) + 1)%nat).
+  { destruct (getjob (s_jobs s) x) as [j|] eqn:E.
+    - destruct (handout_count h x j E) as [[_ B] _]. exact B.
+    - destruct (handout_none h x E) as [B _]. fold s in B. rewrite B. lia. }
+  split; [exact A|lia].
+Qed.
+
 (* Non-vacuity: job 1 is handed to worker 1, whose connection drops; shutdown re-queues it; worker 2 gets it:
    handed out twice, re-queued once, held by one worker. *)
 Definition handout_history : list op :=
